@@ -55,7 +55,7 @@ def prop(el, name):
     return el.get(name)
 
 
-def validate(text, ndigits=3, allow_text=False):
+def validate(text, ndigits=3, allow_text=False, require_stops=False):
     """-> list of complaint strings (empty = conforms)."""
     bad = []
     try:
@@ -113,7 +113,7 @@ def validate(text, ndigits=3, allow_text=False):
                             continue
                         if split(st.tag) != (SVG, "stop"):
                             bad.append(f"gradient {g.get('id')} has child {st.tag}")
-                    if len([s for s in g if split(s.tag) == (SVG, "stop")]) == 0:
+                    if require_stops and len([s for s in g if split(s.tag) == (SVG, "stop")]) == 0:
                         bad.append(f"gradient {g.get('id')} has no stops of its own")
                 walk(ch, p, True, False)
                 continue
